@@ -25,6 +25,7 @@ from hypothesis import strategies as st
 from vt import tt
 from vt.gen.basic import fl, logu
 from vt.gen.trees import Topo, ins_strategy, nested_from_ins
+from vt.oracle import gmrf as gmrf_oracle
 from vt.runner import REPO, Res, Sub, impl_frame
 
 PROPERTY = "C19"
@@ -45,6 +46,11 @@ RULE = (
     "Sub-check 'objectives' enumerates how a density is wired into an algorithm object (advi: divergence ELBO / KLpq "
     "x K_grad_samples x K_elbo_samples x family meanfield / fullrank / realnvp; hmc: single / split operators, adaptors, "
     "diagonal / dense mass matrix; mcmc) on six representative model tuples. "
+    "Sub-check 'initial' enumerates the options that request initial values (--rate_init value / regression x "
+    "--heights_init tree / regression x --root_height_init x --rate x --dates 0 x heights ratio / shift; --brlens_init "
+    "x --keep x --frequencies; --coalescent_init value / constant / tree x coalescent) through advi and mcmc. "
+    "Sub-check 'smoothing' enumerates coalescent {skyride, skygrid, piecewise-linear} x --gmrf_integrated x "
+    "--disable_time_aware x --disable_gmrf_rescaling x --coalescent_non_centered through the four sub-commands. "
     "Sub-check 'executables' (thorough tier) sends a sample through the real torchtree-cli and torchtree "
     "programs in subprocesses. A configuration is counted when the CLI accepted it (exit 0 and JSON on stdout); "
     "non-trivial = accepted and (a time tree or >= 3 sampled/optimised parameter blocks); distinct = "
@@ -80,6 +86,12 @@ ASSUMPTIONS = [
     "of a transform such as srd06.mus, the node-height transform without a tree prior) are accepted present or "
     "absent; the comparison is made at the initial point and at a deterministic perturbed point; configurations whose y is not a bijective image of the "
     "remaining blocks are counted as jac_undetermined and not asserted; map has no Jacobians by design",
+    "clause (e), every sub-command: with a piecewise coalescent the GMRF term of the loaded joint is evaluated at a "
+    "fixed non-constant field and compared with vt/oracle/gmrf.py for the variant the options name (skyride: "
+    "time-aware, weights (d_i+d_{i+1})/2 of the loaded tree's inter-coalescent durations, divided by the root height "
+    "unless --disable_gmrf_rescaling; uniform with --disable_time_aware and for the grid models; precision sampled or "
+    "integrated against the gamma hyper-prior written in the file), 1e-9 relative; trees with three coinciding "
+    "coalescent times (weights undefined) are skipped",
     "one iteration: --iter 1 (advi, mcmc, hmc; --samples 2 for advi, --steps 2 for hmc) is passed unless the case sets these options; "
     "map's L-BFGS is cut to one outer and one inner iteration on the loaded object (its first step is bounded by the "
     "learning rate, later ones are not, and a diverging optimiser is not this property's subject); the run happens "
@@ -1067,6 +1079,71 @@ def nonfinite_parameters(dic):
     return sorted(out)
 
 
+def smoothing_prior_check(opts, spec, dic):
+    """clause (e): the smoothing prior the command line asks for. With a piecewise coalescent the joint must contain
+    the GMRF on the log population sizes that the options name - time-aware (weights from the tree's inter-coalescent
+    durations, divided by the root height unless --disable_gmrf_rescaling) for the skyride unless
+    --disable_time_aware, uniform for the grid models; precision sampled (GMRF) or integrated against the gamma
+    hyper-prior of the emitted file (--gmrf_integrated). Evaluated at a non-constant field (at the CLI's constant
+    start all first differences vanish and every variant coincides) against vt/oracle/gmrf.py.
+    returns None (not applicable) or dict(observed, expected, variant, ...)"""
+    co = opts.get("coalescent")
+    if not (opts.get("clock") and co in ("skyride",) + GRID_COALESCENTS):
+        return None
+    g = dic.get("gmrf")
+    tree = dic.get("tree")
+    if g is None or tree is None:
+        return {"status": "absent"}
+    field = g.field
+    x0 = field.tensor.detach().clone()
+    n = x0.numel()
+    if n < 2:
+        return None
+    x = [1.3 + 0.45 * ((3 * i) % 5) - 0.2 * i for i in range(n)]
+    time_aware = co == "skyride" and not opts.get("disable_time_aware")
+    heights = tree.node_heights.detach().reshape(-1).numpy().astype(float)[tree.taxa_count:]
+    if time_aware:
+        if len(heights) != n:
+            return {"status": "dimension", "field": n, "internal_nodes": len(heights)}
+        w = gmrf_oracle.gmrf_weights(n, "time_aware", internal_heights=heights, rescale=not opts.get("disable_gmrf_rescaling"))
+        if not (np.all(np.isfinite(w)) and np.all(w > 0)):
+            return None  # three coinciding coalescent times: the documented weights are not defined
+    else:
+        w = gmrf_oracle.gmrf_weights(n, "plain")
+    gspec = None
+
+    def find(d):
+        nonlocal gspec
+        if isinstance(d, dict):
+            if d.get("id") == "gmrf":
+                gspec = d
+            for v in d.values():
+                find(v)
+        elif isinstance(d, list):
+            for v in d:
+                find(v)
+
+    find(spec)
+    try:
+        field.tensor = torch.tensor(x, dtype=x0.dtype).reshape(x0.shape)
+        observed = float(g().detach().sum())
+        xs = field.tensor.detach().reshape(-1).numpy().astype(float)
+    finally:
+        field.tensor = x0
+    if opts.get("gmrf_integrated"):
+        if not (isinstance(gspec, dict) and isinstance(gspec.get("shape"), (int, float)) and isinstance(gspec.get("rate"), (int, float))):
+            return {"status": "no_hyperprior"}
+        expected = gmrf_oracle.gmrf_gamma_integrated_closed(xs, w, gspec["shape"], gspec["rate"])
+    else:
+        tau = tensor_of(dic, "gmrf.precision")
+        if tau is None or len(tau) != 1:
+            return {"status": "no_precision"}
+        expected = gmrf_oracle.gmrf_logpdf(xs, float(tau[0]), w)
+    return {"status": "ok", "observed": observed, "expected": float(expected),
+            "variant": ("time-aware" if time_aware else "uniform") + ("/integrated" if opts.get("gmrf_integrated") else ""),
+            "field": xs.tolist(), "weights": np.asarray(w).tolist()}
+
+
 def constrained_snapshot(dic):
     """constrained initial values by id (for the agreement between sub-commands)"""
     from torchtree.core.abstractparameter import AbstractParameter
@@ -1245,6 +1322,18 @@ def eval_config(cmd, opts, data, res, case):
                         count("jac_unknown_class:" + u)
             if len(handed) > 1:
                 count("jac_several_densities")
+    # ---- (e) the smoothing prior the options name, at a non-constant field
+    sp, ok = try_("prior", res, tags, smoothing_prior_check, opts, spec, dic)
+    if ok and sp is not None:
+        if sp["status"] == "ok":
+            count("smoothing_prior_checked")
+            count("smoothing_prior:" + sp["variant"])
+            if abs(sp["observed"] - sp["expected"]) > 1e-9 * max(1.0, abs(sp["expected"])):
+                sp["argv"] = tags["_argv"]
+                res.fail("prior:gmrf", sp, **ftags)
+        else:
+            sp["argv"] = tags["_argv"]
+            res.fail("prior:gmrf_" + sp["status"], sp, **ftags)
     # ---- one iteration, in a fresh load, interleaved as torchtree.main does
     running = []
 
@@ -1432,6 +1521,82 @@ def objective_cases(tier):
 def expand_objective(c):
     kind = KIND_OF_MODEL.get(c["opts"]["model"], "nuc")
     return {"cmds": [c["cmd"]], "opts": c["opts"], "data": seeded_dataset(kind, c["k"] % NDATA), "torch_seed": c["k"]}
+
+
+def initial_cases(tier):
+    """every combination of the options that request initial values (clause (c)), through two sub-commands that
+    unconstrain in different code (advi: cli/advi.py; mcmc: cli/utils.py)"""
+    out = []
+    k = 0
+    for rate_init in (None, 0.004, "regression"):
+        for heights_init in (None, "tree", "regression"):
+            for rhi in (None, "above"):
+                for rate in (None, 0.002):
+                    for dates in (None, "0"):
+                        for heights in ("ratio", "shift"):
+                            o = {"model": "HKY", "clock": "strict", "heights": heights, "coalescent": "constant",
+                                 "tree": "time" if heights_init == "tree" else "subst"}
+                            for name, v in (("rate_init", rate_init), ("heights_init", heights_init), ("rate", rate), ("dates", dates)):
+                                if v is not None:
+                                    o[name] = v
+                            if rhi:
+                                o["root_height_init"] = "span+2.5"
+                            for cmd in ("advi", "mcmc"):
+                                out.append({"cmd": cmd, "opts": o, "k": k})
+                            k += 1
+    for brlens_init in (None, "tree", 0.07):
+        for keep in (False, True):
+            for fr in (None, "equal", "empirical", [0.1, 0.2, 0.3, 0.4]):
+                o = {"model": "GTR"}
+                if brlens_init is not None:
+                    o["brlens_init"] = brlens_init
+                if keep:
+                    o["keep"] = True
+                if fr is not None:
+                    o["frequencies"] = fr
+                for cmd in ("advi", "mcmc"):
+                    out.append({"cmd": cmd, "opts": o, "k": k})
+                k += 1
+    for co in ("constant", "exponential", "skyride", "skygrid"):
+        for ci in (25.0, "constant", "tree"):
+            o = {"model": "JC69", "clock": "strict", "heights_init": "tree", "tree": "time", "coalescent": co, "coalescent_init": ci}
+            if co == "skygrid":
+                o.update(grid=4, cutoff=9.0)
+            for cmd in ("advi", "mcmc"):
+                out.append({"cmd": cmd, "opts": o, "k": k})
+            k += 1
+    return out
+
+
+def expand_initial(c):
+    case = expand_objective(c)
+    o = dict(case["opts"])
+    if o.get("root_height_init") == "span+2.5":
+        o["root_height_init"] = Data(case["data"]).offset + 2.5
+    case["opts"] = o
+    return case
+
+
+def smoothing_cases(tier):
+    """every smoothing-prior variant the options can name, through the four sub-commands"""
+    out = []
+    k = 0
+    base = {"model": "JC69", "clock": "strict", "heights": "ratio", "heights_init": "tree"}
+    for co in ("skyride", "skygrid", "piecewise-linear"):
+        for integ in (False, True):
+            for dta in (False, True):
+                for dgr in (False, True):
+                    for nc in (False, True):
+                        o = dict(base, coalescent=co)
+                        if co != "skyride":
+                            o.update(grid=4, cutoff=9.0)
+                        for name, v in (("gmrf_integrated", integ), ("disable_time_aware", dta), ("disable_gmrf_rescaling", dgr), ("coalescent_non_centered", nc)):
+                            if v:
+                                o[name] = True
+                        for cmd in CMDS:
+                            out.append({"cmd": cmd, "opts": o, "k": k})
+                        k += 1
+    return out
 
 
 # =========================================================================== pairwise strategy
@@ -1718,6 +1883,8 @@ def subchecks(tier):
     subs = [
         core,
         Sub("objectives", body, enumerate=objective_cases, expand=expand_objective, exhaustive=True, size=case_size),
+        Sub("initial", body, enumerate=initial_cases, expand=expand_initial, exhaustive=True, size=case_size),
+        Sub("smoothing", body, enumerate=smoothing_cases, expand=expand_objective, exhaustive=True, size=case_size),
         Sub("pairwise", body, strategy=pairwise_case, quick=900, thorough=24000, size=case_size, shrink_s=40),
     ]
     if tier == "thorough":
